@@ -117,7 +117,9 @@ Section Safety.
     (* a command that some invocation ran is done there, was run once, and by nobody else *)
     I_ran_done : forall i l, In l (i_ran (st_inv key st i)) -> In l (i_done (st_inv key st i));
     I_ran_once : forall i, NoDup (i_ran (st_inv key st i));
-    I_ran_excl : forall i j l, In l (i_ran (st_inv key st i)) -> In l (i_ran (st_inv key st j)) -> i = j
+    I_ran_excl : forall i j l, In l (i_ran (st_inv key st i)) -> In l (i_ran (st_inv key st j)) -> i = j;
+    (* what is in the shared cache was stored by a correct build (or was there, trusted, at the start) *)
+    I_ctrust : cache_trusted key H act r (st_cache key st)
   }.
 
   (* ---- facts about good / trust ---- *)
@@ -173,6 +175,19 @@ Section Safety.
     - assert (t' = t) by (apply labels_inj; assumption). subst t'. injection Hs as <- <-.
       apply H_inj in Hk. subst ins'. exact Ha.
     - apply (Htr t' k v' Hin' Hs ins' Hk).
+  Qed.
+
+  Lemma ctrust_put oc t ins v : cache_trusted key H act r oc -> In t r -> act t ins = Some v ->
+    cache_trusted key H act r (cache_put key key_eqb oc (t_label t) (H t ins) v).
+  Proof.
+    intros Hc Hin Ha. destruct oc as [c|]; cbn [cache_put cache_trusted] in *; [|exact I].
+    intros t' k v' Hin' Hs ins' Hk.
+    destruct (str_eqb_spec (t_label t') (t_label t)) as [Heq|Hne]; cbn [andb] in Hs.
+    - destruct (key_eqb k (H t ins)) eqn:Ek.
+      + assert (t' = t) by (apply labels_inj; assumption). subst t'. injection Hs as <-.
+        apply key_eqb_ok in Ek. subst k. apply H_inj in Hk. subst ins'. exact Ha.
+      + apply (Hc t' k v' Hin' Hs ins' Hk).
+    - apply (Hc t' k v' Hin' Hs ins' Hk).
   Qed.
 
   Lemma upd_same s l x : upd key s l x l = x.
@@ -248,7 +263,7 @@ Section Safety.
           -- intros j0 Hj. rewrite Hd_same in Hj. apply (C j0 Hj).
           -- intros j0 t' Hin' Hlab. destruct (Hnew j0 t' Hin') as [[-> ->]|Hin'']; [|apply (D j0 t' Hin'' Hlab)].
              exfalso. apply (Hfree j t0 Hin0). symmetry. exact Hlab.
-      + intros j Hj. cbn [st_n set_both] in Hj. rewrite inv_at. destruct (Nat.eqb_spec j i) as [->|?]; [lia|].
+      + intros j Hj. cbn [st_n set_both set_all] in Hj. rewrite inv_at. destruct (Nat.eqb_spec j i) as [->|?]; [lia|].
         apply (I_out st HI). exact Hj.
       + intros j t0 Hin0. unfold curl. rewrite inv_at. destruct (Nat.eqb_spec j i) as [->|?]; [|apply (I_cover st HI); exact Hin0].
         cbn [iv' i_todo i_cur i_done map fst]. destruct (I_cover st HI i t0 Hin0) as [Ha|[Hb|Hc]].
@@ -259,6 +274,7 @@ Section Safety.
       + intros j l0 Hin. rewrite Hr_same in Hin. rewrite Hd_same. apply (I_ran_done st HI). exact Hin.
       + intros j. rewrite Hr_same. apply (I_ran_once st HI).
       + intros j j' l0 H1 H2. rewrite Hr_same in H1, H2. apply (I_ran_excl st HI j j' l0 H1 H2).
+      + exact (I_ctrust st HI).
     - (* up to date: reused, nothing is written *)
       assert (Hgood : good (st_store key st) t).
       { apply reuse_good; [exact (I_trust st HI)|exact HtR|exact Hnb|exact Hdone]. }
@@ -286,7 +302,7 @@ Section Safety.
         * intros j0 Hj. destruct (Hd_new j0 _ Hj) as [[-> He]|Hj0]; [|apply (C j0 Hj0)].
           apply (Hfree j t0 Hin). exact He.
         * intros j0 t' Hin' Hlab. rewrite Hc_same in Hin'. apply (D j0 t' Hin' Hlab).
-      + intros j Hj. cbn [st_n set_both] in Hj. rewrite inv_at. destruct (Nat.eqb_spec j i) as [->|?]; [lia|].
+      + intros j Hj. cbn [st_n set_both set_all] in Hj. rewrite inv_at. destruct (Nat.eqb_spec j i) as [->|?]; [lia|].
         apply (I_out st HI). exact Hj.
       + intros j t0 Hin0. rewrite Hc_same. destruct (I_cover st HI j t0 Hin0) as [Ha|[Hb|Hc]].
         * rewrite inv_at. destruct (Nat.eqb_spec j i) as [->|?]; [|left; exact Ha].
@@ -297,6 +313,7 @@ Section Safety.
       + intros j l0 Hin. rewrite Hr_same in Hin. apply Hd_mono. apply (I_ran_done st HI). exact Hin.
       + intros j. rewrite Hr_same. apply (I_ran_once st HI).
       + intros j j' l0 H1 H2. rewrite Hr_same in H1, H2. apply (I_ran_excl st HI j j' l0 H1 H2).
+      + exact (I_ctrust st HI).
   Qed.
 
   (* ---- Move ---- *)
@@ -321,7 +338,7 @@ Section Safety.
     constructor.
     + exact (I_n st HI).
     + apply trust_upd_none. exact (I_trust st HI).
-    + intros j l0 Hin. rewrite Hd_same in Hin. cbn [st_store set_both]. apply done_ok_upd_other.
+    + intros j l0 Hin. rewrite Hd_same in Hin. cbn [st_store set_both set_all]. apply done_ok_upd_other.
       * intros ->. apply (C j Hin).
       * apply (I_done st HI j). exact Hin.
     + intros j. rewrite inv_at. destruct (Nat.eqb_spec j i) as [->|?]; apply (I_nofail st HI).
@@ -330,94 +347,130 @@ Section Safety.
       split; [intros d Hd; rewrite Hd_same; apply B'; exact Hd|]. split.
       * intros j0 Hj. rewrite Hd_same in Hj. apply (C' j0 Hj).
       * intros j0 t' Hin' Hlab. rewrite Hc_same in Hin'. apply (D' j0 t' Hin' Hlab).
-    + intros j Hj. cbn [st_n set_both] in Hj. rewrite inv_at. destruct (Nat.eqb_spec j i) as [->|?]; [lia|].
+    + intros j Hj. cbn [st_n set_both set_all] in Hj. rewrite inv_at. destruct (Nat.eqb_spec j i) as [->|?]; [lia|].
       apply (I_out st HI). exact Hj.
     + intros j t0 Hin0. rewrite Hc_same, Hd_same, Ht_same. apply (I_cover st HI). exact Hin0.
-    + intros l0 Hl0. cbn [st_store set_both]. unfold s'. rewrite upd_other; [apply (I_frame st HI); exact Hl0|].
+    + intros l0 Hl0. cbn [st_store set_both set_all]. unfold s'. rewrite upd_other; [apply (I_frame st HI); exact Hl0|].
       intros He. apply (Hl0 i t A). symmetry. exact He.
     + intros j l0 Hin. rewrite Hr_same in Hin. rewrite Hd_same. apply (I_ran_done st HI). exact Hin.
     + intros j. rewrite Hr_same. apply (I_ran_once st HI).
     + intros j j' l0 H1 H2. rewrite Hr_same in H1, H2. apply (I_ran_excl st HI j j' l0 H1 H2).
+    + exact (I_ctrust st HI).
   Qed.
 
   (* ---- End ---- *)
-  Lemma end_inv st i l st' : Inv st -> i < st_n key st -> step_end key H act st i l = Some st' -> Inv st'.
+  (* the common part of the two successful ways a target build ends: the command ran (b = true; the
+     result may also have been stored in the cache) or its outputs were retrieved from the cache *)
+  Lemma end_core st i l tb cins v oc' (b : bool) : Inv st -> i < st_n key st ->
+    find (fun tb => has_label l (fst tb) && snd tb) (i_cur (st_inv key st i)) = Some tb ->
+    gather cv (t_deps (fst tb)) = Some cins -> act (fst tb) cins = Some v ->
+    cache_trusted key H act r oc' ->
+    Inv (set_all key st (upd key (st_store key st) (t_label (fst tb)) (Some (H (fst tb) cins, v))) oc' i
+                 (mkI (i_todo (st_inv key st i)) (dropc l (i_cur (st_inv key st i)))
+                      (t_label (fst tb) :: i_done (st_inv key st i)) (i_failed (st_inv key st i))
+                      (if b then t_label (fst tb) :: i_ran (st_inv key st i) else i_ran (st_inv key st i)))).
   Proof.
-    intros HI Hi Hs. unfold step_end in Hs. cbv zeta in Hs.
-    destruct (find _ (i_cur (st_inv key st i))) as [tb|] eqn:Hf; [|discriminate].
+    intros HI Hi Hf Hg Ha Hoc.
     apply find_some in Hf. destruct Hf as [Hcur Hl]. apply andb_prop in Hl. destruct Hl as [Hl _]. apply has_label_eq in Hl.
     set (t := fst tb) in *.
     assert (Hint : In t (curl (st_inv key st i))) by (unfold curl, t; apply in_map; exact Hcur).
     destruct (I_cur st HI i t Hint) as (A & B & C & D).
     assert (HtR : In t r) by (apply (todo0_ok i t A)).
-    assert (Hcvn : cv (t_label t) <> None) by (apply (todo0_ok i t A)).
-    assert (Hdone : forall d, In d (t_deps t) -> done_ok (st_store key st) d).
-    { intros d Hd. apply (I_done st HI i). apply B. exact Hd. }
-    rewrite (gather_done _ _ Hdone) in Hs. pose proof (cv_eq t HtR) as Hcv.
-    destruct (gather cv (t_deps t)) as [cins|] eqn:Hg; [|exfalso; apply Hcvn; exact Hcv].
-    destruct (act t cins) as [v|] eqn:Ha; [|exfalso; apply Hcvn; exact Hcv].
-    injection Hs as Hs; subst st'.
-    match goal with |- Inv (set_both _ _ ?y _ ?x) => set (iv' := x); set (s' := y) end.
+    pose proof (cv_eq t HtR) as Hcv. rewrite Hg, Ha in Hcv.
+    match goal with |- Inv (set_all _ _ ?y _ _ ?x) => set (iv' := x); set (s' := y) end.
     assert (Hgood : good s' t).
     { exists cins, v. split; [exact Hg|]. split; [exact Hcv|]. unfold s'. apply upd_same. }
-    assert (Hc_new : forall j' t', In t' (curl (st_inv key (set_both key st s' i iv') j')) ->
+    assert (Hat : forall j, st_inv key (set_all key st s' oc' i iv') j = if Nat.eqb j i then iv' else st_inv key st j) by reflexivity.
+    assert (Hc_new : forall j' t', In t' (curl (st_inv key (set_all key st s' oc' i iv') j')) ->
                        In t' (curl (st_inv key st j')) /\ (j' = i -> t_label t' <> l)).
-    { intros j' t' Hin. unfold curl in *. rewrite inv_at in Hin. destruct (Nat.eqb_spec j' i) as [->|Hne].
+    { intros j' t' Hin. unfold curl in *. rewrite Hat in Hin. destruct (Nat.eqb_spec j' i) as [->|Hne].
       - cbn [iv' i_cur] in Hin. apply in_curl_dropc in Hin. destruct Hin as [Hin Hne]. split; [exact Hin|intros _; exact Hne].
       - split; [exact Hin|intros He; contradiction]. }
     assert (Hc_keep : forall j' t', In t' (curl (st_inv key st j')) -> (j' <> i \/ t_label t' <> l) ->
-                       In t' (curl (st_inv key (set_both key st s' i iv') j'))).
-    { intros j' t' Hin Hor. unfold curl in *. rewrite inv_at. destruct (Nat.eqb_spec j' i) as [->|Hne]; [|exact Hin].
+                       In t' (curl (st_inv key (set_all key st s' oc' i iv') j'))).
+    { intros j' t' Hin Hor. unfold curl in *. rewrite Hat. destruct (Nat.eqb_spec j' i) as [->|Hne]; [|exact Hin].
       cbn [iv' i_cur]. apply in_curl_dropc. split; [exact Hin|]. destruct Hor as [Hor|Hor]; [contradiction|exact Hor]. }
-    assert (Hd_new : forall j' l0, In l0 (i_done (st_inv key (set_both key st s' i iv') j')) ->
+    assert (Hd_new : forall j' l0, In l0 (i_done (st_inv key (set_all key st s' oc' i iv') j')) ->
                        (j' = i /\ l0 = t_label t) \/ In l0 (i_done (st_inv key st j'))).
-    { intros j' l0 Hin. rewrite inv_at in Hin. destruct (Nat.eqb_spec j' i) as [->|?]; [|right; exact Hin].
+    { intros j' l0 Hin. rewrite Hat in Hin. destruct (Nat.eqb_spec j' i) as [->|?]; [|right; exact Hin].
       cbn [iv' i_done] in Hin. destruct Hin as [<-|Hin]; [left; split; reflexivity|right; exact Hin]. }
     assert (Hd_mono : forall j' l0, In l0 (i_done (st_inv key st j')) ->
-                        In l0 (i_done (st_inv key (set_both key st s' i iv') j'))).
-    { intros j' l0 Hin. rewrite inv_at. destruct (Nat.eqb_spec j' i) as [->|?]; [right; exact Hin|exact Hin]. }
-    assert (Hr_new : forall j' l0, In l0 (i_ran (st_inv key (set_both key st s' i iv') j')) ->
-                       (j' = i /\ l0 = t_label t) \/ In l0 (i_ran (st_inv key st j'))).
-    { intros j' l0 Hin. rewrite inv_at in Hin. destruct (Nat.eqb_spec j' i) as [->|?]; [|right; exact Hin].
-      cbn [iv' i_ran] in Hin. destruct Hin as [<-|Hin]; [left; split; reflexivity|right; exact Hin]. }
+                        In l0 (i_done (st_inv key (set_all key st s' oc' i iv') j'))).
+    { intros j' l0 Hin. rewrite Hat. destruct (Nat.eqb_spec j' i) as [->|?]; [right; exact Hin|exact Hin]. }
+    assert (Hr_new : forall j' l0, In l0 (i_ran (st_inv key (set_all key st s' oc' i iv') j')) ->
+                       (j' = i /\ l0 = t_label t /\ b = true) \/ In l0 (i_ran (st_inv key st j'))).
+    { intros j' l0 Hin. rewrite Hat in Hin. destruct (Nat.eqb_spec j' i) as [->|?]; [|right; exact Hin].
+      cbn [iv' i_ran] in Hin. destruct b; [|right; exact Hin].
+      destruct Hin as [<-|Hin]; [left; repeat split; reflexivity|right; exact Hin]. }
     assert (Hfresh : forall j', ~ In (t_label t) (i_ran (st_inv key st j'))).
     { intros j' Hin. apply (C j'). apply (I_ran_done st HI). exact Hin. }
     constructor.
     + exact (I_n st HI).
-    + cbn [st_store set_both]. unfold s'. apply trust_upd_run; [exact (I_trust st HI)|exact HtR|exact Ha].
-    + intros j l0 Hin. cbn [st_store set_both]. destruct (Hd_new j l0 Hin) as [[-> ->]|Hin0].
+    + cbn [st_store set_all]. unfold s'. apply trust_upd_run; [exact (I_trust st HI)|exact HtR|exact Ha].
+    + intros j l0 Hin. cbn [st_store set_all]. destruct (Hd_new j l0 Hin) as [[-> ->]|Hin0].
       * exists t. split; [exact HtR|]. split; [reflexivity|exact Hgood].
       * unfold s'. apply done_ok_upd_other; [|apply (I_done st HI j); exact Hin0].
         intros ->. apply (C j Hin0).
-    + intros j. rewrite inv_at. destruct (Nat.eqb_spec j i) as [->|?]; apply (I_nofail st HI).
-    + intros j t0 Hin. rewrite inv_at in Hin. destruct (Nat.eqb_spec j i) as [->|?]; apply (I_todo st HI); exact Hin.
+    + intros j. rewrite Hat. destruct (Nat.eqb_spec j i) as [->|?]; apply (I_nofail st HI).
+    + intros j t0 Hin. rewrite Hat in Hin. destruct (Nat.eqb_spec j i) as [->|?]; apply (I_todo st HI); exact Hin.
     + intros j t0 Hin. destruct (Hc_new j t0 Hin) as [Hin0 Hne]. destruct (I_cur st HI j t0 Hin0) as (A' & B' & C' & D').
       split; [exact A'|]. split; [intros d Hd; apply Hd_mono; apply B'; exact Hd|]. split.
       * intros j0 Hj. destruct (Hd_new j0 _ Hj) as [[-> He]|Hj0]; [|apply (C' j0 Hj0)].
         pose proof (D' i t Hint (eq_sym He)) as Hij. subst j. apply (Hne eq_refl). congruence.
       * intros j0 t' Hin' Hlab. destruct (Hc_new j0 t' Hin') as [Hin'' _]. apply (D' j0 t' Hin'' Hlab).
-    + intros j Hj. cbn [st_n set_both] in Hj. rewrite inv_at. destruct (Nat.eqb_spec j i) as [->|?]; [lia|].
+    + intros j Hj. cbn [st_n set_all] in Hj. rewrite Hat. destruct (Nat.eqb_spec j i) as [->|?]; [lia|].
       apply (I_out st HI). exact Hj.
     + intros j t0 Hin0. destruct (I_cover st HI j t0 Hin0) as [Ha0|[Hb|Hc]].
-      * left. rewrite inv_at. destruct (Nat.eqb_spec j i) as [->|?]; exact Ha0.
+      * left. rewrite Hat. destruct (Nat.eqb_spec j i) as [->|?]; exact Ha0.
       * destruct (Nat.eq_dec j i) as [->|Hne].
         -- destruct (str_eqb_spec (t_label t0) l) as [He|Hne'].
-           ++ right. right. rewrite inv_at, Nat.eqb_refl. cbn [iv' i_done]. left. congruence.
+           ++ right. right. rewrite Hat, Nat.eqb_refl. cbn [iv' i_done]. left. congruence.
            ++ right. left. apply Hc_keep; [exact Hb|right; exact Hne'].
         -- right. left. apply Hc_keep; [exact Hb|left; exact Hne].
       * right. right. apply Hd_mono. exact Hc.
-    + intros l0 Hl0. cbn [st_store set_both]. unfold s'. rewrite upd_other; [apply (I_frame st HI); exact Hl0|].
+    + intros l0 Hl0. cbn [st_store set_all]. unfold s'. rewrite upd_other; [apply (I_frame st HI); exact Hl0|].
       intros He. apply (Hl0 i t A). symmetry. exact He.
-    + intros j l0 Hin. destruct (Hr_new j l0 Hin) as [[-> ->]|Hin0].
-      * rewrite inv_at, Nat.eqb_refl. cbn [iv' i_done]. left. reflexivity.
+    + intros j l0 Hin. destruct (Hr_new j l0 Hin) as [(-> & -> & _)|Hin0].
+      * rewrite Hat, Nat.eqb_refl. cbn [iv' i_done]. left. reflexivity.
       * apply Hd_mono. apply (I_ran_done st HI). exact Hin0.
-    + intros j. rewrite inv_at. destruct (Nat.eqb_spec j i) as [->|?]; [|apply (I_ran_once st HI)].
-      cbn [iv' i_ran]. constructor; [apply Hfresh|apply (I_ran_once st HI)].
-    + intros j j' l0 H1 H2. destruct (Hr_new j l0 H1) as [[-> E1]|H1'], (Hr_new j' l0 H2) as [[-> E2]|H2'].
+    + intros j. rewrite Hat. destruct (Nat.eqb_spec j i) as [->|?]; [|apply (I_ran_once st HI)].
+      cbn [iv' i_ran]. destruct b; [|apply (I_ran_once st HI)]. constructor; [apply Hfresh|apply (I_ran_once st HI)].
+    + intros j j' l0 H1 H2. destruct (Hr_new j l0 H1) as [(-> & E1 & _)|H1'], (Hr_new j' l0 H2) as [(-> & E2 & _)|H2'].
       * reflexivity.
       * exfalso. apply (Hfresh j'). rewrite <- E1. exact H2'.
       * exfalso. apply (Hfresh j). rewrite <- E2. exact H1'.
       * apply (I_ran_excl st HI j j' l0 H1' H2').
+    + exact Hoc.
+  Qed.
+
+  Lemma end_inv st i l st' : Inv st -> i < st_n key st -> step_end key key_eqb H act st i l = Some st' -> Inv st'.
+  Proof.
+    intros HI Hi Hs. unfold step_end in Hs. cbv zeta in Hs.
+    destruct (find _ (i_cur (st_inv key st i))) as [tb|] eqn:Hf; [|discriminate].
+    pose proof Hf as Hf'.
+    apply find_some in Hf. destruct Hf as [Hcur Hl]. apply andb_prop in Hl. destruct Hl as [Hl _]. apply has_label_eq in Hl.
+    assert (Hint : In (fst tb) (curl (st_inv key st i))) by (unfold curl; apply in_map; exact Hcur).
+    destruct (I_cur st HI i (fst tb) Hint) as (A & B & C & D).
+    assert (HtR : In (fst tb) r) by (apply (todo0_ok i _ A)).
+    assert (Hcvn : cv (t_label (fst tb)) <> None) by (apply (todo0_ok i _ A)).
+    assert (Hdone : forall d, In d (t_deps (fst tb)) -> done_ok (st_store key st) d).
+    { intros d Hd. apply (I_done st HI i). apply B. exact Hd. }
+    rewrite (gather_done _ _ Hdone) in Hs. pose proof (cv_eq _ HtR) as Hcv.
+    destruct (gather cv (t_deps (fst tb))) as [cins|] eqn:Hg; [|exfalso; apply Hcvn; exact Hcv].
+    destruct (act (fst tb) cins) as [v|] eqn:Ha; [|exfalso; apply Hcvn; exact Hcv].
+    destruct (if cacheable (fst tb) then cache_get key (st_cache key st) (t_label (fst tb)) (H (fst tb) cins) else None)
+      as [v'|] eqn:Hhit.
+    - (* retrieved from the cache: by I_ctrust it is what the command would have produced *)
+      assert (v' = v).
+      { destruct (cacheable (fst tb)); [|discriminate]. pose proof (I_ctrust st HI) as Hct.
+        destruct (st_cache key st) as [c|]; cbn [cache_get] in Hhit; [|discriminate]. cbn [cache_trusted] in Hct.
+        pose proof (Hct _ _ _ HtR Hhit cins eq_refl) as Hx. congruence. }
+      subst v'. injection Hs as Hs; subst st'.
+      exact (end_core st i l tb cins v (st_cache key st) false HI Hi Hf' Hg Ha (I_ctrust st HI)).
+    - injection Hs as Hs; subst st'.
+      apply (end_core st i l tb cins v _ true HI Hi Hf' Hg Ha).
+      destruct (cacheable (fst tb)); [|exact (I_ctrust st HI)].
+      apply ctrust_put; [exact (I_ctrust st HI)|exact HtR|exact Ha].
   Qed.
 
   Lemma step_inv st e st' : Inv st -> stepL st e = Some st' -> Inv st'.
@@ -438,9 +491,10 @@ Section Safety.
     change (Inv (run key key_eqb H act true sched (apply key key_eqb H act true st e))). apply IH. apply apply_inv. exact HI.
   Qed.
 
-  Lemma init_inv todos : trust s0 -> n0 = length todos -> (forall i, todo0 i = nth i todos []) -> Inv (init key s0 todos).
+  Lemma init_inv todos oc : trust s0 -> cache_trusted key H act r oc -> n0 = length todos ->
+    (forall i, todo0 i = nth i todos []) -> Inv (init_c key s0 oc todos).
   Proof.
-    intros Htr Hn Htd. constructor; cbn [init st_n st_store st_inv i_todo i_cur i_done i_failed i_ran].
+    intros Htr Hoc Hn Htd. constructor; cbn [init_c st_n st_store st_inv st_cache i_todo i_cur i_done i_failed i_ran].
     - symmetry. exact Hn.
     - exact Htr.
     - intros i l [].
@@ -453,6 +507,7 @@ Section Safety.
     - intros i l [].
     - intros i. constructor.
     - intros i j l [].
+    - exact Hoc.
   Qed.
 
   (* what the invariant gives when every process has exited *)
@@ -607,26 +662,26 @@ Section Closed.
     - rewrite Hd in Hin. destruct Hin.
   Qed.
 
-  Lemma reach_inv todos sched : requests_ok act r todos ->
+  Lemma reach_inv todos oc sched : cache_trusted key H act r oc -> requests_ok act r todos ->
     Inv key H act r (cleanv act r) s0 (fun i => nth i todos []) (length todos)
-        (run key key_eqb H act true sched (init key s0 todos)).
+        (run key key_eqb H act true sched (init_c key s0 oc todos)).
   Proof.
-    intros Hreq.
+    intros Hoc Hreq.
     apply (run_inv key key_eqb H act key_eqb_ok H_inj r (cleanv act r) wf_labels_inj (cleanv_eq act r Hwf)
                    s0 (fun i => nth i todos []) (todo0_of todos Hreq) (length todos) sched).
-    apply init_inv; [exact Htr|reflexivity|reflexivity].
+    apply init_inv; [exact Htr|exact Hoc|reflexivity|reflexivity].
   Qed.
 
   (* SAFETY, every schedule: nobody ever fails; when all have exited every requested target carries
      the clean build's outputs; nothing else in plz-out has been touched *)
-  Theorem c31_safety todos sched : requests_ok act r todos ->
-    let st := run key key_eqb H act true sched (init key s0 todos) in
+  Theorem c31_safety todos oc sched : cache_trusted key H act r oc -> requests_ok act r todos ->
+    let st := run key key_eqb H act true sched (init_c key s0 oc todos) in
     all_ok key st = true
     /\ (finished key st = true -> forall ts t, In ts todos -> In t ts ->
           sval key (st_store key st) (t_label t) = cleanv act r (t_label t))
     /\ (forall l, (forall ts t, In ts todos -> In t ts -> t_label t <> l) -> st_store key st l = s0 l).
   Proof.
-    intros Hreq st. pose proof (reach_inv todos sched Hreq) as HI. fold st in HI. split; [|split].
+    intros Hoc Hreq st. pose proof (reach_inv todos oc sched Hoc Hreq) as HI. fold st in HI. split; [|split].
     - apply (inv_all_ok _ _ _ _ _ _ _ _ _ HI).
     - intros Hf ts t Hts Hin. destruct (In_nth todos ts [] Hts) as (i & Hi & Hnth).
       apply (inv_finished_clean _ _ _ _ _ _ _ _ _ HI Hf i t Hi). cbv beta. rewrite Hnth. exact Hin.
@@ -635,18 +690,19 @@ Section Closed.
   Qed.
 
   (* the same plz-out as ONE process building the union, whatever the two schedules *)
-  Theorem c31_same_as_single todos single sched sched1 :
+  Theorem c31_same_as_single todos single oc oc1 sched sched1 :
+    cache_trusted key H act r oc -> cache_trusted key H act r oc1 ->
     requests_ok act r todos -> requests_ok act r [single] ->
     (forall l, In l (map t_label (concat todos)) <-> In l (map t_label single)) ->
-    let st := run key key_eqb H act true sched (init key s0 todos) in
-    let st1 := run key key_eqb H act true sched1 (init key s0 [single]) in
+    let st := run key key_eqb H act true sched (init_c key s0 oc todos) in
+    let st1 := run key key_eqb H act true sched1 (init_c key s0 oc1 [single]) in
     finished key st = true -> finished key st1 = true ->
     all_ok key st = true /\ all_ok key st1 = true
     /\ forall l, sval key (st_store key st) l = sval key (st_store key st1) l.
   Proof.
-    intros Hreq Hreq1 Hun st st1 Hf Hf1.
-    destruct (c31_safety todos sched Hreq) as (Hok & Hcl & Hfr).
-    destruct (c31_safety [single] sched1 Hreq1) as (Hok1 & Hcl1 & Hfr1).
+    intros Hoc Hoc1 Hreq Hreq1 Hun st st1 Hf Hf1.
+    destruct (c31_safety todos oc sched Hoc Hreq) as (Hok & Hcl & Hfr).
+    destruct (c31_safety [single] oc1 sched1 Hoc1 Hreq1) as (Hok1 & Hcl1 & Hfr1).
     fold st in Hok, Hcl, Hfr. fold st1 in Hok1, Hcl1, Hfr1.
     split; [exact Hok|]. split; [exact Hok1|]. intros l.
     destruct (in_dec (list_eq_dec N.eq_dec) l (map t_label (concat todos))) as [Hin|Hnin].
@@ -663,22 +719,23 @@ Section Closed.
       unfold sval. rewrite E, E1. reflexivity.
   Qed.
   (* no command runs twice: not in one process, not in two *)
-  Theorem c31_at_most_once todos sched : requests_ok act r todos ->
-    let st := run key key_eqb H act true sched (init key s0 todos) in
+  Theorem c31_at_most_once todos oc sched : cache_trusted key H act r oc -> requests_ok act r todos ->
+    let st := run key key_eqb H act true sched (init_c key s0 oc todos) in
     (forall i, NoDup (i_ran (st_inv key st i)))
     /\ (forall i j l, In l (i_ran (st_inv key st i)) -> In l (i_ran (st_inv key st j)) -> i = j).
   Proof.
-    intros Hreq st. pose proof (reach_inv todos sched Hreq) as HI. fold st in HI. split.
+    intros Hoc Hreq st. pose proof (reach_inv todos oc sched Hoc Hreq) as HI. fold st in HI. split.
     - apply (I_ran_once _ _ _ _ _ _ _ _ _ HI).
     - apply (I_ran_excl _ _ _ _ _ _ _ _ _ HI).
   Qed.
   (* PROGRESS: no deadlock.  In every reachable state in which some process has not exited, some
      event is enabled (a lock is held across one target build only, and that build needs no other lock) *)
-  Theorem c31_no_deadlock todos sched : requests_ok act r todos -> (forall ts, In ts todos -> deps_closed ts) ->
-    let st := run key key_eqb H act true sched (init key s0 todos) in
+  Theorem c31_no_deadlock todos oc sched : cache_trusted key H act r oc ->
+    requests_ok act r todos -> (forall ts, In ts todos -> deps_closed ts) ->
+    let st := run key key_eqb H act true sched (init_c key s0 oc todos) in
     finished key st = false -> exists e, step key key_eqb H act true st e <> None.
   Proof.
-    intros Hreq Hcl st Hnf. pose proof (reach_inv todos sched Hreq) as HI. fold st in HI.
+    intros Hoc Hreq Hcl st Hnf. pose proof (reach_inv todos oc sched Hoc Hreq) as HI. fold st in HI.
     pose proof (I_n _ _ _ _ _ _ _ _ _ HI) as Hn.
     destruct (existsb (fun i => match i_cur (st_inv key st i) with [] => false | _ => true end) (seq 0 (st_n key st))) eqn:Hex.
     - apply existsb_exists in Hex. destruct Hex as (i & Hi & Hc). apply in_seq in Hi.
@@ -686,7 +743,8 @@ Section Closed.
       destruct (i_cur (st_inv key st i)) as [|[t b] rest] eqn:Ecur; [discriminate|]. destruct b.
       + exists (End i (t_label t)). cbn [step]. rewrite Hlt. unfold step_end. cbv zeta. rewrite Ecur. cbn [find fst snd].
         unfold has_label at 1. rewrite str_eqb_refl. cbn [andb fst].
-        destruct (gather _ _); [destruct (act _ _)|]; discriminate.
+        destruct (gather _ _); [|discriminate].
+        destruct (if cacheable t then _ else _); [discriminate|]. destruct (act _ _); discriminate.
       + exists (Move i (t_label t)). cbn [step]. rewrite Hlt. unfold step_move. cbv zeta. rewrite Ecur. cbn [find fst snd].
         unfold has_label at 1. rewrite str_eqb_refl. cbn [andb negb]. discriminate.
     - assert (Hnocur : forall j, i_cur (st_inv key st j) = []).
@@ -788,24 +846,25 @@ Lemma c31_full_proof :
     (forall t a b, H t a = H t b -> a = b) ->
   forall r : list target, wf_repo r = true ->
   forall s0 : store key, trusted key H act r s0 ->
+  forall oc : option (cache key), cache_trusted key H act r oc ->
   forall todos : list (list target), requests_ok act r todos ->
   forall sched : list ev,
-    let st := run key key_eqb H act true sched (init key s0 todos) in
+    let st := run key key_eqb H act true sched (init_c key s0 oc todos) in
     all_ok key st = true
     /\ (finished key st = true -> forall ts t, In ts todos -> In t ts ->
           sval key (st_store key st) (t_label t) = cleanv act r (t_label t))
     /\ (forall l, (forall ts t, In ts todos -> In t ts -> t_label t <> l) -> st_store key st l = s0 l)
-    /\ (forall single sched1, requests_ok act r [single] ->
+    /\ (forall single oc1 sched1, cache_trusted key H act r oc1 -> requests_ok act r [single] ->
           (forall l, In l (map t_label (concat todos)) <-> In l (map t_label single)) ->
-          let st1 := run key key_eqb H act true sched1 (init key s0 [single]) in
+          let st1 := run key key_eqb H act true sched1 (init_c key s0 oc1 [single]) in
           finished key st = true -> finished key st1 = true ->
           all_ok key st1 = true /\ forall l, sval key (st_store key st) l = sval key (st_store key st1) l).
 Proof.
-  intros key key_eqb H act Hk Hinj r Hwf s0 Htr todos Hreq sched st.
-  destruct (c31_safety key key_eqb H act Hk Hinj r Hwf s0 Htr todos sched Hreq) as (Hok & Hcl & Hfr).
+  intros key key_eqb H act Hk Hinj r Hwf s0 Htr oc Hoc todos Hreq sched st.
+  destruct (c31_safety key key_eqb H act Hk Hinj r Hwf s0 Htr todos oc sched Hoc Hreq) as (Hok & Hcl & Hfr).
   split; [exact Hok|]. split; [exact Hcl|]. split; [exact Hfr|].
-  intros single sched1 Hreq1 Hun st1 Hf Hf1.
-  destruct (c31_same_as_single key key_eqb H act Hk Hinj r Hwf s0 Htr todos single sched sched1 Hreq Hreq1 Hun Hf Hf1)
+  intros single oc1 sched1 Hoc1 Hreq1 Hun st1 Hf Hf1.
+  destruct (c31_same_as_single key key_eqb H act Hk Hinj r Hwf s0 Htr todos single oc oc1 sched sched1 Hoc Hoc1 Hreq Hreq1 Hun Hf Hf1)
     as (_ & Hok1 & Heq).
   split; [exact Hok1|exact Heq].
 Qed.
